@@ -90,6 +90,13 @@ def run(ctx):
             jobs.append((g, {"n_iso_graphs": rng.randint(1, min(4, [1, 1, 2, 6, 24, 24, 24][n])), "n_lc_graphs": rng.randint(1, 4),
                              "lc_method": m, "sort_emit": rng.random() < 0.3, "allow_exhaustive": rng.random() < 0.7,
                              "lc_orbit_depth": rng.choice([None, 1, 2])}, False))
+    # 5 - 7 vertex targets chosen by execution coverage of the deterministic solver underneath (engine/covpool.py): the ones
+    # that reach its rarely executed code first
+    pool = cz.trs_pool()
+    for k, g in enumerate(pool[:6] if ctx.quick else pool):
+        jobs.append((g, {"n_iso_graphs": 2, "n_lc_graphs": 3, "lc_method": [None, "lc_with_iso", "depth_first"][k % 3],
+                         "sort_emit": False, "allow_exhaustive": True, "lc_orbit_depth": None}, False))
+    ctx.extra["coverage_pool_targets"] = len(pool[:6] if ctx.quick else pool)
     for n in (4, 5):
         jobs.append((nx.path_graph(n), {"n_iso_graphs": 1, "n_lc_graphs": 3, "lc_method": "linear", "sort_emit": False}, False))
     # the scripted orbit methods on relabelled inputs (a path whose vertex 0 is interior, relabelled repeater graphs)
